@@ -6,7 +6,7 @@ import InfluxQL.Lemmas.StmtPieces
 import InfluxQL.Lemmas.StmtExprPieces
 import InfluxQL.Lemmas.SelectPieces
 import InfluxQL.Lemmas.SelectClauses
-import InfluxQL.Lemmas.SelectSubquery
+import InfluxQL.Lemmas.SelectExplain
 import InfluxQL.Lemmas.IntLit
 import InfluxQL.Lemmas.RegexRoundTrip
 import InfluxQL.Lemmas.NumberRoundTrip
@@ -2736,6 +2736,46 @@ end
 
 example : (match (runHandler 206 .parseSelectStatement_targetNotRequired).run (PState.init (selectTail exSub0) [] []) with
     | .ok (.select st, _) => st.print == exSub0.print
+    | _ => false) = true := by decide +kernel
+
+/-! ### EXPLAIN [ANALYZE] [VERBOSE] SELECT … -/
+
+/-- The pieces are what `ExplainStatement.String()` writes, for a SELECT of the class. -/
+theorem explain_print (tbl : List (Char × Char)) (n : Nat) (st : SelectStmt) (analyze verbose : Bool)
+    (h : selOKB tbl n st = true) :
+    (Statement.explain st analyze verbose).print = tx "EXPLAIN" ++ explainText analyze verbose st :=
+  explain_print_eq tbl n st analyze verbose h
+
+/-- **Print → parse, EXPLAIN.** `parseExplainStatement` on the text printed after the keyword `EXPLAIN`
+(` ANALYZE` / ` VERBOSE` when set, ` SELECT` and the statement), followed by `k`, returns exactly the statement with
+both flags and stands before `k` — or the fuel was too small.
+
+Partial — the SELECT statement is of the class `selOKB s.lowerTbl n` (wide class at every level, subqueries nested
+less than `n` deep; exclusions as in `selectSub_print_parse_partial`). -/
+theorem explain_print_parse_partial (n fuel : Nat) (s : PState) (st : SelectStmt) (analyze verbose : Bool) (k : Str)
+    (hok : selOKB s.lowerTbl n st = true) (hk : Follow k selectStop)
+    (hs : s.Before (explainText analyze verbose st ++ k)) :
+    wp (runHandler (fuel + n + 3) .parseExplainStatement) s
+      (fun r s' => r = .explain st analyze verbose ∧ RT.Stand s' k) (· = .fuel) :=
+  parseExplain_print n fuel s st analyze verbose k hok hk hs
+
+/-- Non-vacuity: `EXPLAIN ANALYZE SELECT mean(x) FROM (SELECT … FROM (SELECT …) …), m GROUP BY host LIMIT 5`. -/
+def exExplainText : Str := explainText true false exSub0
+
+example : tx "EXPLAIN" ++ exExplainText = ("EXPLAIN ANALYZE SELECT mean(x) FROM (SELECT max(value) AS x FROM " ++
+    "(SELECT value FROM db.rp.cpu WHERE host = 'a') GROUP BY time(5m) fill(none)), m GROUP BY host LIMIT 5").toList := by
+  decide +kernel
+
+section
+attribute [local irreducible] wp
+example : wp (runHandler 206 .parseExplainStatement) (PState.init exExplainText [] [])
+    (fun st s' => st = .explain exSub0 true false ∧ RT.Stand s' [eofRune]) (· = .fuel) :=
+  explain_print_parse_partial 3 200 (PState.init exExplainText [] []) exSub0 true false [eofRune] (by decide +kernel)
+    (Follow.eof _ (by decide)) (init_before exExplainText (by decide +kernel))
+end
+
+example : (match (runHandler 206 .parseExplainStatement).run (PState.init (explainText true true exSub0) [] []) with
+    | .ok (st, _) => st.print == (Statement.explain exSub0 true true).print
     | _ => false) = true := by decide +kernel
 
 /-! ## passwords -/
